@@ -493,11 +493,14 @@ MBlockPostJ ==
 MBlockPostW ==
   /\ pc = "BlockPost_w" /\ FlushThen(BlkName, "BlockDeferred")
   /\ UNCHANGED <<mem, mreason, dreason, cb, wk, lim, fails, li, am, rn, cl, ch, runs, waiter, wq>> /\ UNCH_M
+\* deferred checks run once: a group that is already Completed is skipped, one that is already Failed (resumed block) fails the block
 MBlockDeferred ==
   /\ pc = "BlockDeferred"
-  /\ IF Has(cb, "deferred") /\ mem[Grp(cb, "deferred")].st # CO THEN StartRuns({Grp(cb, "deferred")}) /\ Goto("BlockDeferred_j")
-                                                                 ELSE UNCHANGED rn /\ Goto("BlockDeferred_w")
-  /\ Silent /\ UNCH_MR /\ UNCH_M
+  /\ IF Has(cb, "deferred") /\ mem[Grp(cb, "deferred")].st \notin {CO, FA}
+       THEN StartRuns({Grp(cb, "deferred")}) /\ Goto("BlockDeferred_j") /\ UNCHANGED mem
+       ELSE /\ UNCHANGED rn /\ Goto("BlockDeferred_w")
+            /\ IF Has(cb, "deferred") /\ mem[Grp(cb, "deferred")].st = FA THEN mem' = [mem EXCEPT ![BlkName].st = FA] ELSE UNCHANGED mem
+  /\ Silent /\ UNCHANGED <<dur, mreason, dreason, cb, wk, lim, fails, li, am, cl, ch, runs, waiter, wq>> /\ UNCH_M
 MBlockDeferredJ ==
   /\ pc = "BlockDeferred_j" /\ Joined({Grp(cb, "deferred")})
   /\ ClearRuns({Grp(cb, "deferred")})
